@@ -98,3 +98,4 @@ pub fn vx_incr_i32_or_panic(i: i32) -> (r: i32) ensures i < i32::MAX, r == i + 1
 pub uninterp spec fn f64_is_finite_spec(x: f64) -> bool;
 #[verifier::external_body]
 pub fn vx_f64_is_finite(x: f64) -> (r: bool) ensures r == f64_is_finite_spec(x) { x.is_finite() }
+pub assume_specification[ f64::is_finite ](x: f64) -> (r: bool) ensures r == f64_is_finite_spec(x);
